@@ -61,7 +61,7 @@ def check_one(sh, term, width, frac, strat, want_stats=False):
         if not ok:
             m2 = R.Matcher(term, st, width, frac, strat == 'smart', strict=False)
             if m2.run():
-                sh.violation('bare-hardline-in-flat-group', 'a bare HARDLINE was rendered inside a group laid out flat: %s -> %r' % (D.show(term), st.text()), case)
+                sh.violation('bare-hardline-in-flat-group', 'a bare HARDLINE was rendered inside a group / fill item laid out flat: %s -> %r' % (D.show(term), st.text()), case)
                 sh.counters['streams accepted only by the lenient reading'] += 1
             else:
                 sh.violation(classify(term), 'the emitted layout is not one the document denotes: %s at width %d frac %s (%s) -> %r' % (D.show(term), width, frac, strat, st.text()), case)
